@@ -372,6 +372,53 @@ def r06_5(run):
     run.ob('R06.5', mi, mi.node, 'the port reaches the address object unchanged', ok, slot='port-flow', message='port is not passed unchanged to _create_ip_address')
 
 
+def r06_6(run):
+    """The classifier is faithful: the family object is chosen by the class ipaddress.ip_address() gives for the
+    caller's own host string, and carries that string; no rewriting (IPv4-mapped, scope ids, ...) in between."""
+    u = run.idx.unit(MOD + '._create_ip_address')
+    mod = u.module
+    g = cfg_of(u)
+    hp = u.params[0] if u.params else None
+    pp = u.params[1] if len(u.params) > 1 else None
+    # the parsed value: locals assigned from ipaddress.ip_address(...)
+    parsed = names_defined_by(u, lambda v: isinstance(v, ast.Call) and (origin(mod, v.func) or '').endswith('ipaddress.ip_address'))
+    run.floor('R06.6', 'locals holding the parsed address', len(parsed), 1)
+    k = 0
+    for n in walk_unit(u):
+        if isinstance(n, (ast.Assign, ast.AugAssign)):
+            for t in assigned_targets(n):
+                if t in parsed:
+                    v = n.value
+                    ok = is_none(v) or (isinstance(v, ast.Call) and (origin(mod, v.func) or '').endswith('ipaddress.ip_address')
+                                        and len(v.args) == 1 and dotted(v.args[0]) == hp)
+                    k += 1
+                    run.ob('R06.6', u, n, 'the parsed address is ipaddress.ip_address(host) or None', ok, slot='parsed-rewritten',
+                           message='_create_ip_address sets the parsed address to %s: the family sent no longer follows the literal the caller gave' % src(v)[:60])
+                if t in (hp, pp):
+                    k += 1
+                    run.ob('R06.6', u, n, 'host and port parameters are not rewritten', False, slot='param-rewritten:%s' % t,
+                           message='_create_ip_address rewrites its parameter %s' % t)
+    fam_cls = {'v4': 'IPv4Address', 'v6': 'IPv6Address'}
+    for c in calls_in(u):
+        o = origin(mod, c.func)
+        if o not in TW:
+            continue
+        fam = TW[o]
+        args = [dotted(a) for a in c.args]
+        k += 1
+        run.ob('R06.6', u, c, 'the address object carries the caller\'s host and port', hp in args and (pp in args), slot='ctor-args:%s' % fam,
+               message='%s built from %s rather than (%s, %s)' % (o.split('.')[-1], args, hp, pp))
+        if fam in fam_cls:
+            ok = False
+            for cn in g.nodes_containing(c):
+                for t, lab in g.guarded_by(cn, lambda t: isinstance(t, ast.Call) and dotted(t.func) == 'isinstance'):
+                    if lab == 'T' and len(t.ast.args) == 2 and dotted(t.ast.args[0]) in parsed and (origin(mod, t.ast.args[1]) or '').endswith('ipaddress.' + fam_cls[fam]):
+                        ok = True
+            run.ob('R06.6', u, c, '%s is returned exactly under isinstance(parsed, ipaddress.%s)' % (fam, fam_cls[fam]), ok, slot='family-guard:%s' % fam,
+                   message='the %s address object is not guarded by isinstance(<parsed>, ipaddress.%s)' % (fam, fam_cls[fam]))
+    run.floor('R06.6', 'classifier obligations', k, 5)
+
+
 def r06_4(run):
     disp = dispatch_table(run)
     k = 0
@@ -416,12 +463,15 @@ RULES = [
     ('R06.2', 'struct format x header x address agreement with RFC 1928 for every request type and address family (path enumeration over the family atom)', r06_2),
     ('R06.3', 'one request, only after a version-5 reply selecting method 0 (table + dominance)', r06_3),
     ('R06.5', 'no test narrows the legal port range 0..65535 (representatives evaluated through the comparisons)', r06_5),
+    ('R06.6', 'classifier fidelity: family chosen by ipaddress.ip_address(host) alone, host/port carried unchanged', r06_6),
     ('R06.4', 'sibling agreement: every packed hostname comes from a strict ASCII encoding and a one-byte length', r06_4),
 ]
 
 from ..selftest import M  # noqa: E402
 F = 'txtorcon/socks.py'
 MUTANTS = [
+    M('v4-mapped-rewritten', F, "        a = None\n    if isinstance(a, ipaddress.IPv4Address):", "        a = None\n    if isinstance(a, ipaddress.IPv6Address) and a.ipv4_mapped is not None:\n        a = a.ipv4_mapped\n    if isinstance(a, ipaddress.IPv4Address):", ['R06.6']),
+    M('families-swapped', F, "    if isinstance(a, ipaddress.IPv4Address):\n        return IPv4Address('TCP', host, port)", "    if isinstance(a, ipaddress.IPv6Address):\n        return IPv4Address('TCP', host, port)", ['R06.6']),
     M('greeting-two-methods', F, "struct.pack('BBB', 5, 1, 0)", "struct.pack('BBB', 5, 2, 0)", ['R06.1']),
     M('port-little-endian', F, "                    '!BBBBB{}sH'.format(len(host)),\n                    5,                   # version\n                    0x01,", "                    '<BBBBB{}sH'.format(len(host)),\n                    5,                   # version\n                    0x01,", ['R06.2']),
     M('no-byte-order', F, "                '!BBBBB{}sH'.format(len(host)),\n                5,                   # version\n                0xF0,", "                'BBBBB{}sH'.format(len(host)),\n                5,                   # version\n                0xF0,", ['R06.2']),
